@@ -4,14 +4,19 @@ EXTENDS StorageAppend
 
 Prefixes0 == { <<0>>, <<4>>, <<248>>, <<252>> }                                   \* 0, 1, 62, 63
 Prefixes1 == { <<1, 1>>, <<5, 1>>, <<249, 255>>, <<253, 255>>,                   \* 64, 65, 16382, 16383
-               <<1, 0>>, <<253, 0>>, <<5, 0>> }                                  \* non-canonical 0, 63, 1
+               <<1, 0>>, <<253, 0>>, <<5, 0>>,                                   \* non-canonical 0, 63, 1
+               <<253, 1>>, <<9, 2>> }                                            \* carry into the second byte, asymmetric
 Prefixes2 == { <<2, 0, 1, 0>>, <<6, 0, 1, 0>>, <<250, 255, 255, 255>>, <<254, 255, 255, 255>>,   \* 16384, 16385, 2^30-2, 2^30-1
-               <<2, 0, 0, 0>>, <<254, 255, 0, 0>>, <<6, 0, 0, 0>> }              \* non-canonical 0, 16383, 1
+               <<2, 0, 0, 0>>, <<254, 255, 0, 0>>, <<6, 0, 0, 0>>,               \* non-canonical 0, 16383, 1
+               <<6, 3, 2, 1>>, <<254, 255, 2, 1>>, <<254, 255, 255, 1>> }         \* asymmetric, carries across one and two bytes
 Prefixes3 == { <<3, 0, 0, 0, 64>>, <<3, 255, 255, 255, 127>>, <<3, 0, 0, 0, 128>>,   \* 2^30, 2^31-1, 2^31
                <<3, 254, 255, 255, 255>>, <<3, 255, 255, 255, 255>>,             \* 2^32-2, 2^32-1 (n + 1 does not fit)
                <<3, 0, 0, 0, 0>>, <<3, 255, 255, 255, 63>>, <<3, 1, 0, 0, 0>>,   \* non-canonical 0, 2^30-1, 1
                <<7, 0, 0, 0, 0, 1>>, <<7, 1, 0, 0, 0, 0>>, <<11, 0, 0, 0, 0, 0, 1>>,   \* big-integer mode with 5, 6 bytes
-               <<19, 1, 0, 0, 0, 0, 0, 0, 0>>, <<255>> \o Rep(67, 1) }           \* 8 and 67 bytes
+               <<19, 1, 0, 0, 0, 0, 0, 0, 0>>, <<255>> \o Rep(67, 1),            \* 8 and 67 bytes
+               (* asymmetric byte patterns (every byte position distinguishable) and carries across bytes (seed C09c) *)
+               <<3, 255, 0, 0, 64>>, <<3, 255, 255, 0, 64>>, <<3, 119, 86, 52, 82>>, <<3, 238, 205, 171, 137>>,
+               <<3, 255, 255, 255, 64>>, <<3, 1, 2, 3, 64>> }
 Truncated == { <<1>>, <<253>>, <<2>>, <<2, 0>>, <<2, 0, 1>>, <<3>>, <<3, 0>>, <<3, 0, 0, 0>>, <<7, 0, 0, 0, 0>>, <<255, 1, 1>> }
 Payloads == { <<>>, <<9>>, <<9, 8, 7>> }
 
